@@ -54,14 +54,16 @@ PROPS = {
         R("rand", "64", "iter", 160, 50), R("rand", "32", "iter", 160, 50), R("det", "32", "iter", 80, 50),
         R("rand", "typed", "typediter", 60, 40)]),
     "C14": dict(tags=["C14"], runs=[
-        R("rand", "64", "fail", 60, 40), R("rand", "32", "fail", 60, 40), R("det", "64", "fail", 30, 40)]),
+        R("rand", "64", "fail", 60, 40), R("rand", "32", "fail", 60, 40), R("det", "64", "fail", 30, 40),
+        R("rand", "typed", "typedfail", 12, 30)]),
     "C15": dict(tags=["C15"], runs=[
         R("rand", "64", "hints", 200, 60), R("rand", "32", "hints", 200, 60), R("det", "64", "hints", 80, 60),
         R("rand", "typed", "typedhints", 30, 40)]),
     "C16": dict(tags=["C16"], runs=[
         R("serde", "64", "serde", 120, 50), R("serde", "32", "serde", 120, 50), R("serde", "typed", "typedserde", 60, 30)]),
     "C17": dict(tags=["C17"], runs=[
-        R("det", "64", "det", 120, 80), R("det", "32", "det", 120, 80), R("det", "typed", "typeddet", 20, 40)]),
+        R("det", "64", "det", 120, 80), R("det", "32", "det", 120, 80), R("det", "typed", "typeddet", 20, 40),
+        R("det", "32", "det", 60, 80, extra=["minalign"])]),
     "C18": dict(tags=["C18"], runs=[
         R("rand", "64", "readers", 100, 60), R("rand", "32", "readers", 100, 60),
         R("randfast", "64", "readers", 40, 60), R("randfast", "32", "readers", 40, 60)]),
